@@ -9,7 +9,7 @@ from concurrent.futures import ProcessPoolExecutor
 import numpy as np
 
 from . import stages
-from .common import NonTermination, sha, time_limit
+from .common import NonTermination, sha, time_limit, touch_same_index
 
 INVS = ["GreedyCharacterisation", "GuidedIsMembership", "Terminates", "NoDuplicates", "Supported", "NothingLeft", "Spacing",
         "ThresholdMonotone", "EmptyInnerScoresZero"]
@@ -185,6 +185,8 @@ def record(args):
                     except RuntimeError:
                         pass
                 det.fit(Xin)
+                if not r1 and reused:
+                    touch_same_index(det, Xin)
                 y = det.predict(Xin)
                 dets.append((det, y))
             det, y = dets[0]
